@@ -441,8 +441,76 @@ def c11(res, rng, tier):
             res.violation("a value returned by an earlier Decode call was altered by a later call: %s" % o[:200],
                           {"kind": "impl", "pickles_hex": [p.hex() for p in s], "pydict": pd, "strict": su, "observed": o[:600],
                            "cmd": "echo '%s' | harness/go/implrun" % alines[j][:400]})
+    # streams whose pickles DO share the memo (stream theorem C11_stream_against_cpython: Proofs/SimFacts.v
+    # stream_sim): successive load() calls on ONE CPython Unpickler are the reference; the model's
+    # PyVM2.qload_all must agree with them wherever it answers, and the implementation's successive
+    # Decode calls must return values equivalent to CPython's
+    import pyref as R
+    gen2, _ = gen_pickles(rng.fork("gen2"), 300 if q else 4000, allow_memoize=True)
+    shared = [b"]q\x00.", b"h\x00.", b"]q\x01K\x01a.", b"h\x01h\x00\x86.", b"}q\x02.", b"h\x02K\x01K\x02s.", b"h\x02.", b"\x80\x04]\x94.", b"\x80\x04K\x05\x94.",
+              b"(h\x00h\x02t.", b"K\x07q\x00.", b"g0\n.", b"X\x01\x00\x00\x00aq\x05.", b"h\x05h\x05\x86."]
+    pool2 = gen2 + shared * (len(gen2) // 30 + 1)
+    r2 = rng.fork("streams2")
+    mstreams = [[r2.choice(pool2) for _ in range(1 + r2.below(6))] for _ in range(300 if q else 5000)]
+    mstreams += [[shared[0], shared[1]], [shared[2], shared[3]], [shared[4], shared[5], shared[6]], [shared[7], shared[8], b"h\x00h\x01\x86."],
+                 [shared[10], shared[11], shared[0], shared[1]], [shared[12], shared[13]]]
+    mlines = ["dec 1 1 0 %s" % b"".join(s_).hex() for s_ in mstreams]
+    mimpl = C.implrun(mlines)
+    mmodel = C.modelrun(["decfinal" + l[3:] for l in mlines])   # implrun dumps every value after the last call
+    qls = C.modelrun(["qloads " + " ".join(p.hex() for p in s_) for s_ in mstreams])
+    sstats = {"streams": len(mstreams), "cpython_all_loaded": 0, "pyvm2_answers": 0, "impl_calls_compared": 0, "stale": 0}
+    for k, s_ in enumerate(mstreams):
+        try:
+            ref = R.pyload_stream(b"".join(s_), True)
+        except RecursionError:
+            continue
+        if "#staleappend" not in mmodel[k] and strip_model(mmodel[k]) != mimpl[k]:
+            res.violation("correspondence: model and implementation differ on a memo-sharing stream",
+                          {"kind": "correspondence", "pickles_hex": [p.hex() for p in s_], "model": mmodel[k][:500], "impl": mimpl[k][:500]}, found_input=False)
+            continue
+        allok = len(ref) == len(s_) and all(o for o, _ in ref)
+        if not allok:
+            continue
+        sstats["cpython_all_loaded"] += 1
+        ql = qls[k]
+        if ql not in ("NODIS", "GIVEUP") and "DEEP" not in ql:
+            qparts = ql.split(" | ")
+            good = len(qparts) == len(ref)
+            try:
+                for qp, (_, obj) in zip(qparts, ref):
+                    fl = {}
+                    if not (qp.startswith("ok ") and R.equiv(R.parse_go(qp[3:]), obj, True, flags=fl)) and not fl.get("multi"):
+                        good = False
+                sstats["pyvm2_answers"] += 1
+                if not good:
+                    res.violation("the CPython machine of the model (PyVM2.qload_all) and CPython's successive load() calls on one Unpickler differ: %s vs %r" % (ql[:160], [o for _, o in ref][:4]),
+                                  {"kind": "correspondence", "theorem": "PyVM2.qload_all (specification of C11_stream_against_cpython)", "pickles_hex": [p.hex() for p in s_],
+                                   "pyvm2": ql[:800], "cpython": repr([o for _, o in ref])[:800]})
+                    continue
+            except (R.Cyclic, RecursionError):
+                pass
+        if "~stale" in mmodel[k] or "#staleappend" in mmodel[k]:
+            sstats["stale"] += 1
+            continue
+        got = parts(mimpl[k])
+        for j, (_, obj) in enumerate(ref):
+            try:
+                fl = {}
+                okj = j < len(got) and got[j].startswith("ok ") and (got[j] == "ok TOOBIG" or R.equiv(R.parse_go(got[j][3:]), obj, True, flags=fl))
+            except (R.Cyclic, RecursionError):
+                break
+            if fl.get("multi"):
+                break
+            if not okj:
+                res.violation("memo-sharing stream: call %d returns %s, CPython's load() number %d on one Unpickler returns %r"
+                              % (j + 1, (got[j] if j < len(got) else "nothing")[:140], j + 1, obj),
+                              {"kind": "impl", "pickles_hex": [p.hex() for p in s_], "pydict": "1", "strict": "1", "stream": mimpl[k][:600],
+                               "cpython": repr([o for _, o in ref])[:600], "cmd": "echo '%s' | harness/go/implrun" % mlines[k][:400]})
+                break
+            sstats["impl_calls_compared"] += 1
     res.coverage.update({
-        "evaluations": len(lines) + len(slines) + len(alines), "distinct_nontrivial": nontriv,
+        "memo_sharing_streams": sstats,
+        "evaluations": len(lines) + len(slines) + len(alines) + len(mlines), "distinct_nontrivial": nontriv,
         "rule": "streams of 1..8 self-contained pickles (grammar pickles at mixed protocols, hand-assembled memo-free programs leaving extra operands / marks / a protocol number / buffer contents behind, pickles failing at their last byte) + all ordered pairs of the hand-assembled ones, x 4 configs; each call compared with the same pickle decoded alone; earlier results re-dumped after the last call; non-trivial = streams whose every call matched",
         "programs": len(lines), "disagreements_checked": len(lines), "opcode_histogram_generated": hist})
     res.samples = [{"pickles_hex": [p.hex()[:40] for p in meta[i][0]], "impl": impl[i][:160]} for i in range(0, len(lines), max(1, len(lines) // 6))]
